@@ -124,6 +124,63 @@ def cw (fx : Fix) (cid : String) (k : Key) : Event → Nat
   | .messageDropped c q r => if c = cid ∧ qosOk q ∧ k = .dropped q r then 1 else 0
   | _ => 0
 
+theorem cw_msgIn (cid : String) (q : Nat) (hok : qosOk q = true) (e : Event) :
+    cw Fix.all cid (.msgIn q) e = if e = .messageReceived cid q then 1 else 0 := by
+  cases e with
+  | packetReceived c t b => simp [cw, pktW]
+  | packetSent c t b => simp [cw, pktW]
+  | messageReceived c q' =>
+    simp only [cw, Fix.all, if_true, Key.msgIn.injEq, Event.messageReceived.injEq]
+    by_cases h1 : c = cid <;> by_cases h2 : q' = q
+    · subst h1; subst h2; simp [hok]
+    · have : ¬ q = q' := fun e => h2 e.symm
+      simp [h1, h2, this]
+    · simp [h1]
+    · simp [h1]
+  | messageSent c q' => simp [cw]
+  | messageDropped c q' r => simp [cw]
+  | _ => simp [cw]
+
+theorem cw_msgOut (cid : String) (q : Nat) (hok : qosOk q = true) (e : Event) :
+    cw Fix.all cid (.msgOut q) e = if e = .messageSent cid q then 1 else 0 := by
+  cases e with
+  | packetReceived c t b => simp [cw, pktW]
+  | packetSent c t b => simp [cw, pktW]
+  | messageSent c q' =>
+    simp only [cw, Fix.all, if_true, Key.msgOut.injEq, Event.messageSent.injEq]
+    by_cases h1 : c = cid <;> by_cases h2 : q' = q
+    · subst h1; subst h2; simp [hok]
+    · have : ¬ q = q' := fun e => h2 e.symm
+      simp [h1, h2, this]
+    · simp [h1]
+    · simp [h1]
+  | messageReceived c q' => simp [cw]
+  | messageDropped c q' r => simp [cw]
+  | _ => simp [cw]
+
+theorem cw_dropped (cid : String) (q : Nat) (r : Reason) (hok : qosOk q = true) (e : Event) :
+    cw Fix.all cid (.dropped q r) e = if e = .messageDropped cid q r then 1 else 0 := by
+  cases e with
+  | packetReceived c t b => simp [cw, pktW]
+  | packetSent c t b => simp [cw, pktW]
+  | messageDropped c q' r' =>
+    simp only [cw, Key.dropped.injEq, Event.messageDropped.injEq]
+    by_cases h1 : c = cid <;> by_cases h2 : q' = q <;> by_cases h3 : r' = r
+    · subst h1; subst h2; subst h3; simp [hok]
+    · have : ¬ r = r' := fun e => h3 e.symm
+      simp [h1, h2, h3, this]
+    · have : ¬ q = q' := fun e => h2 e.symm
+      simp [h1, h2, this]
+    · have : ¬ q = q' := fun e => h2 e.symm
+      simp [h1, h2, this]
+    · simp [h1]
+    · simp [h1]
+    · simp [h1]
+    · simp [h1]
+  | messageReceived c q' => simp [cw]
+  | messageSent c q' => simp [cw]
+  | _ => simp [cw]
+
 @[simp] theorem bump_cum (c : CStats) (k' : Key) (n : Nat) (k : Key) :
     (c.bump k' n).cum k = c.cum k + (if k = k' then n else 0) := by
   simp only [CStats.bump]
@@ -494,6 +551,16 @@ def WFG (t : Tr) : List Event → Prop
      | .decQueueLen c d => (d : Int) ≤ t.queued c
      | _ => True) ∧ WFG (t.step e) r
 
+instance WFG.dec : (t : Tr) → (log : List Event) → Decidable (WFG t log)
+  | _, [] => isTrue trivial
+  | t, e :: r =>
+    have : Decidable (match e with
+      | .decInflight c d => (d : Int) ≤ t.infl c
+      | .decQueueLen c d => (d : Int) ≤ t.queued c
+      | _ => True) := by cases e <;> simp only <;> infer_instance
+    have := WFG.dec (t.step e) r
+    inferInstanceAs (Decidable (_ ∧ _))
+
 structure TrInv (s : Stats) (t : Tr) : Prop where
   infl : ∀ c, (s.client c).inflight = t.infl c
   queued : ∀ c, (s.client c).queued = t.queued c
@@ -769,6 +836,15 @@ def Act.next (tbl : Tbl) : Act → Tbl
 def Valid (tbl : Tbl) : List Act → Prop
   | [] => True
   | a :: r => a.ok tbl ∧ Valid (a.next tbl) r
+
+instance Act.okDec (tbl : Tbl) (a : Act) : Decidable (a.ok tbl) := by
+  cases a <;> simp only [Act.ok] <;> infer_instance
+
+instance Valid.dec : (tbl : Tbl) → (acts : List Act) → Decidable (Valid tbl acts)
+  | _, [] => isTrue trivial
+  | tbl, a :: r =>
+    have := Valid.dec (a.next tbl) r
+    inferInstanceAs (Decidable (_ ∧ _))
 
 def Tbl.run (tbl : Tbl) (acts : List Act) : Tbl := acts.foldl Act.next tbl
 
